@@ -1,4 +1,5 @@
 import GqlProofs.Lemmas.VarsLemmas
+import GqlProofs.Lemmas.ConformsLemmas
 import GqlProofs.Lemmas.VarsFixtures
 /-
   C14 — variable coercion is total and type-conforming.
@@ -85,6 +86,118 @@ theorem C14_defaults (s : Schema) (op : OperationDef) (vars m : VarMap)
   · rw [hs] at e; simp at e
   · rw [hs] at e1; cases e1
     exact ⟨acc, c, e2, h2⟩
+
+/-
+  ────────────────────────────────────────────────────────────────────────────────────────────
+  FULL STATEMENTS of C14_conforms / C14_rejects (both FALSE of the pinned tree):
+
+      theorem C14_conforms : coerce s op vars = .ok m → ∀ v ∈ op.vars, ∀ y, m.lookup v.var = some y → Conforms s v.type y
+      theorem C14_rejects  : (∃ v ∈ op.vars, ∃ x, vars.lookup v.var = some x ∧ ¬ Coercible s v.type x) → ∀ m, coerce s op vars ≠ .ok m
+
+  The pinned code is more lenient than the strict reading at six points; each has a
+  kernel-checked counterexample below and is one field of `Leniency` (GqlModel/Vars/Spec.lean):
+    flatNested (R14d)       `$v: [[Int]]` = `[1,2]` returns `[1,2]`: the coerced inner lists are discarded
+    enumFold (R14b)         `$v: Color` = "red" is accepted for `enum Color { RED }`
+    typenameKey (R14c)      an input object keeps the undeclared key `__typename`
+    fractionalInt           `$v: Int` = 1.5 (float64) is accepted
+    numericStrings          `$v: Int` = "12" (a string) is accepted
+    jsonNumberAsString      `$v: String` = json.Number("12") is accepted
+  `C14_conforms_partial` / `C14_rejects_partial` are the statements with `conformsWith .legacy`
+  (all six leniencies granted) in place of `Conforms` / `Coercible`; they are PROVED for variables
+  whose named type is a scalar or an enum under any list nesting (`LeafTyped`).  NOT FINISHED:
+  the same statement for input-object types (the `fieldLoop` invariant: keys preserved, every
+  visited entry replaced by a conforming value, required fields present; needs unique field names
+  and unique map keys).  For input objects the claim is covered by exploration only: the harness
+  judges every value Go returns with `conformsWith .legacy` (X-vars: no violation in 2·10^5
+  results) and attributes each strict violation to the leniencies above.
+  Repairs that make the strict statements true: store the coerced element back (R14d,
+  `legacyDiscardNestedListResult := false`), compare enum names exactly, reject `__typename` /
+  fractional floats for Int / strings for Int and Float / json.Number for String.
+  ────────────────────────────────────────────────────────────────────────────────────────────
+-/
+
+/-- R14d: nested list results are discarded: `$v: [[Int]]` = `[1,2]` yields `[1,2]`, not `[[1],[2]]`. -/
+theorem C14_conforms_counterexample :
+    coerce schema (opWith (listOf (listOf (named "Int")))) (varsV (islice [int 1, int 2]))
+        = .ok (varsV (islice [int 1, int 2]))
+    ∧ ¬ Conforms schema (listOf (listOf (named "Int"))) (islice [int 1, int 2])
+    ∧ Coercible schema (listOf (listOf (named "Int"))) (islice [int 1, int 2]) := by
+  refine ⟨by rfl, by decide, by decide⟩
+
+/-- R14b: enum values are matched case-insensitively. -/
+theorem C14_conforms_counterexample_enumFold :
+    coerce schema (opWith (named "Color")) (varsV (.str (str "red"))) = .ok (varsV (.str (str "red")))
+    ∧ ¬ Conforms schema (named "Color") (.str (str "red"))
+    ∧ ¬ Coercible schema (named "Color") (.str (str "red")) := by
+  refine ⟨by rfl, by decide, by decide⟩
+
+/-- R14c: the undeclared key `__typename` is accepted and kept. -/
+theorem C14_conforms_counterexample_typename :
+    coerce schema (opWith (named "In")) (varsV (imap [(str "a", int 1), (str "__typename", .str (str "In"))]))
+        = .ok (varsV (imap [(str "a", int 1), (str "__typename", .str (str "In"))]))
+    ∧ ¬ Conforms schema (named "In") (imap [(str "a", int 1), (str "__typename", .str (str "In"))]) := by
+  refine ⟨by rfl, by decide⟩
+
+/-- `Int` accepts a fractional float. -/
+theorem C14_conforms_counterexample_fractionalInt :
+    coerce schema (opWith (named "Int")) (varsV (.float false (str "1.5"))) = .ok (varsV (.float false (str "1.5")))
+    ∧ ¬ Conforms schema (named "Int") (.float false (str "1.5")) := by
+  refine ⟨by rfl, by decide⟩
+
+/-- `Int` accepts a string whose text parses as an integer. -/
+theorem C14_conforms_counterexample_numericString :
+    coerce schema (opWith (named "Int")) (varsV (.str (str "12"))) = .ok (varsV (.str (str "12")))
+    ∧ ¬ Conforms schema (named "Int") (.str (str "12")) := by
+  refine ⟨by rfl, by decide⟩
+
+/-- `String` accepts a json.Number. -/
+theorem C14_conforms_counterexample_jsonNumber :
+    coerce schema (opWith (named "String")) (varsV (.jsonNumber (str "12"))) = .ok (varsV (.jsonNumber (str "12")))
+    ∧ ¬ Conforms schema (named "String") (.jsonNumber (str "12")) := by
+  refine ⟨by rfl, by decide⟩
+
+/-- When coercion returns values, the value of every declared variable of a scalar- or enum-based
+    type (any list nesting) conforms to its declared type up to the six enumerated leniencies. -/
+theorem C14_conforms_partial (s : Schema) (op : OperationDef) (vars m : VarMap)
+    (hplain : EnumNamesPlain s) (hnodup : (op.vars.map (·.var)).Nodup)
+    (h : coerce s op vars = .ok m) :
+    ∀ v ∈ op.vars, LeafTyped s v.type → ∀ y, m.lookup v.var = some y → conformsWith .legacy s v.type y = true := by
+  intro v hv ht y hy
+  obtain ⟨acc, c, h1, h2, h3⟩ := coerceLoop_entry op.vars .nil m hnodup h v hv
+  rcases coerceVar_shape h1 with ⟨e, _⟩ | ⟨x, y', _, e2, _⟩
+  · rw [h2, e, h3] at hy; simp [GoFields.lookup] at hy
+  · obtain ⟨⟨y'', e3, hc⟩, _⟩ := coerceSupplied_conforms s hplain op v acc c x ht e2
+    rw [h2, e3, GoFields.lookup_set] at hy
+    simp at hy; subst hy; exact hc
+
+/-- Coercion returns an error rather than values whenever a supplied value of a scalar- or
+    enum-based type cannot conform even with the six leniencies (and single-value-to-list coercion). -/
+theorem C14_rejects_partial (s : Schema) (op : OperationDef) (vars : VarMap)
+    (hplain : EnumNamesPlain s) (hnodup : (op.vars.map (·.var)).Nodup)
+    (v : VarDef) (hv : v ∈ op.vars) (ht : LeafTyped s v.type)
+    (x : GoVal) (hx : vars.lookup v.var = some x) (hbad : conformsWith .legacy s v.type x = false) :
+    ∀ m, coerce s op vars ≠ .ok m := by
+  intro m h
+  obtain ⟨acc, c, h1, _, _⟩ := coerceLoop_entry op.vars .nil m hnodup h v hv
+  have hs : suppliedValue vars v = .ok (some x) := by simp [suppliedValue, hx]
+  rcases coerceVar_shape h1 with ⟨_, e⟩ | ⟨x', y', e1, e2, _⟩
+  · rw [hs] at e; simp at e
+  · rw [hs] at e1; cases e1
+    have := (coerceSupplied_conforms s hplain op v acc c x ht e2).2
+    simp [CL, hbad] at this
+
+/- non-vacuity of the hypotheses of C14_conforms_partial / C14_rejects_partial -/
+example : EnumNamesPlain schema := by
+  intro n d h ev hev
+  have hm := lookup_mem (show schema.types.lookup n = some d from h)
+  simp only [schema, List.mem_cons, Prod.mk.injEq, List.not_mem_nil, or_false] at hm
+  rcases hm with ⟨_, rfl⟩ | ⟨_, rfl⟩ | ⟨_, rfl⟩ | ⟨_, rfl⟩ | ⟨_, rfl⟩ | ⟨_, rfl⟩ <;>
+    simp [mkDef, colorDef, inDef] at hev
+  subst hev; decide
+example : LeafTyped schema (listOf (listOf (named "Color"))) := ⟨colorDef, by rfl, Or.inr rfl⟩
+example : coerce schema (opWith (listOf (named "Color"))) (varsV (.str (str "RED")))
+    = .ok (varsV (.slice .string (.cons (.str (str "RED")) .nil))) := by rfl
+example : conformsWith .legacy schema (named "Color") (.str (str "GREEN")) = false := by decide
 
 /- non-vacuity of C14_total_partial / C14_defaults: an operation with a default, coerced with the
    empty map, returns the default -/
